@@ -284,7 +284,7 @@ func (h *Hist) Exec(op Op) Op {
 		h.c = &lib.Chain{App: na, Ctx: nctx, Seed: c.Seed, Height: exported.Height, Time: c.Time}
 		h.cur, h.imported, op.Res = nil, true, "ok"
 		post := h.snap()
-		h.cw.Add(pre, "CExportImport", "OOk", post, h.cfg)
+		h.cw.Add(pre, fmt.Sprintf("CExportImport %d", exported.Height), "OOk", post, h.cfg)
 		h.mon.AfterImport(op, pre, post)
 	case "mint":
 		c.Mint(h.acc(op.A), sdk.NewCoin(op.Denom, amt(op.Amt)))
